@@ -206,6 +206,7 @@ func newIdentity(name string) *identity {
 
 // ---- a connection to the accessory: plain HTTP until verified, framed afterwards ----
 type ctlConn struct {
+	tail []byte // appended once to the next plaintext request (see INJ)
 	c       net.Conn
 	br      *bufio.Reader // plaintext view (decrypting when secured)
 	secured bool
@@ -329,6 +330,11 @@ func (cc *ctlConn) request(method, path, ctype string, body []byte) (*httpResp, 
 	}
 	b.WriteString("\r\n")
 	b.Write(body)
+	if cc.tail != nil && !cc.secured {
+		// bytes somebody on the path puts behind this request, in the same segment
+		b.Write(cc.tail)
+		cc.tail = nil
+	}
 	if err := cc.send(b.Bytes()); err != nil {
 		cc.dead = true
 		return nil, err
@@ -624,6 +630,10 @@ func (v *verifyRun) m3(name string, signer ed25519.PrivateKey, variant string) (
 	inner := tlvEncode([]tlvItem{{tName, []byte(name)}, {tSig, sig}})
 	if variant == "inner-garbage" {
 		inner = []byte{1, 200, 3}
+	}
+	if variant == "inner-trailing" {
+		// the genuine items followed by one more byte: the tag of an item that has no length
+		inner = append(inner, 0x0a)
 	}
 	if variant == "zerokey" {
 		key = make([]byte, 32)
